@@ -315,4 +315,188 @@ theorem op_ok {s : Name} (b : Nat) {w : World} {C : List Update} (o : EOp) (ho :
   | flushAll k ord => simp [onShard] at ho
   | compactAll ord => simp [onShard] at ho
 
+/-! ### crashes inside recovery: every prefix of the recovery's own FS steps keeps the image -/
+
+theorem AllPre.full' {d : Disk} {ops : List (Op Path Rec)} {Q : Disk → Prop} (h : AllPre d ops Q) :
+    Q (applyAll d ops) := by
+  have := h ops.length
+  simpa using this
+
+theorem cleanup_pre {s : Name} {md : Option ShardMeta} {X es : List Update} (L : List Path) :
+    ∀ w : World, Img s w.disk md X es → (∀ q, orphan w.mem.shards q = true → ¬ observed md q) →
+      ∃ tr, (cleanupOrphans w L).1.trace = w.trace ++ tr ∧
+        (cleanupOrphans w L).1.disk = applyAll w.disk (tr.map (·.2)) ∧
+        AllPre w.disk (tr.map (·.2)) (fun d' => Img s d' md X es) := by
+  induction L with
+  | nil => intro w himg _; exact ⟨[], by simp [cleanupOrphans], by simp [cleanupOrphans, applyAll], allPre_nil himg⟩
+  | cons p rest ih =>
+    intro w himg horph
+    cases p with
+    | batch id =>
+      simp only [cleanupOrphans]
+      by_cases href : referenced w.mem.shards id = true
+      · simp only [href, if_true]; exact ih w himg horph
+      · simp only [href, Bool.false_eq_true, if_false]
+        have hno : ¬ observed md (.batch id) := horph _ (by simp [orphan, href])
+        obtain ⟨tr, h1, h2, h3⟩ := ih (emit w .orphansUnlinkBatch (.unlink (.batch id))) (himg.unlink_other _ hno) horph
+        have h3' : AllPre (apply w.disk (.unlink (.batch id))) (tr.map (·.2)) (fun d' => Img s d' md X es) := h3
+        exact ⟨(.orphansUnlinkBatch, .unlink (.batch id)) :: tr, by rw [h1]; simp [emit], by rw [h2]; simp [emit, applyAll],
+          by simpa using allPre_cons himg h3'⟩
+    | batchTmp id =>
+      simp only [cleanupOrphans]
+      have hno : ¬ observed md (.batchTmp id) := by simp [observed]
+      obtain ⟨tr, h1, h2, h3⟩ := ih (emit w .orphansUnlinkTmp (.unlink (.batchTmp id))) (himg.unlink_other _ hno) horph
+      have h3' : AllPre (apply w.disk (.unlink (.batchTmp id))) (tr.map (·.2)) (fun d' => Img s d' md X es) := h3
+      exact ⟨(.orphansUnlinkTmp, .unlink (.batchTmp id)) :: tr, by rw [h1]; simp [emit], by rw [h2]; simp [emit, applyAll],
+        by simpa using allPre_cons himg h3'⟩
+    | wal | walNew | smeta f | metaTmp f => simp only [cleanupOrphans]; exact ih w himg horph
+
+theorem afterCleanup_pre {s : Name} {md : Option ShardMeta} {X es : List Update} (w : World) (L : List Path)
+    (himg : Img s w.disk md X es) (horph : ∀ q, orphan w.mem.shards q = true → ¬ observed md q) :
+    ∃ tr, (afterCleanup w L).trace = w.trace ++ tr ∧ (afterCleanup w L).disk = applyAll w.disk (tr.map (·.2)) ∧
+      AllPre w.disk (tr.map (·.2)) (fun d' => Img s d' md X es) := by
+  obtain ⟨tr, h1, h2, h3⟩ := cleanup_pre (s := s) L w himg horph
+  simp only [afterCleanup]
+  split
+  · refine ⟨tr ++ [(.orphansDirsync, .nop 0)], by simp [emit, h1], by simp [emit, h2, applyAll], ?_⟩
+    rw [List.map_append]
+    apply allPre_append h3
+    have hfin : Img s (applyAll w.disk (tr.map (·.2))) md X es := AllPre.full' h3
+    simp only [List.map_cons, List.map_nil]
+    exact allPre_cons hfin (allPre_nil (hfin.nop 0))
+  · exact ⟨tr, h1, h2, h3⟩
+
+theorem AllPre.full {d : Disk} {ops : List (Op Path Rec)} {Q : Disk → Prop} (h : AllPre d ops Q) :
+    Q (applyAll d ops) := by
+  have := h ops.length
+  simpa using this
+
+theorem AllPre.mono {d : Disk} {ops : List (Op Path Rec)} {Q Q' : Disk → Prop} (h : AllPre d ops Q)
+    (hq : ∀ d', Q d' → Q' d') : AllPre d ops Q' := fun j => hq _ (h j)
+
+theorem stageFinish_trace (w w' : World) (hnew : (get w.disk .walNew).isSome = false) (h : stageFinish w = some w') :
+    w'.trace = w.trace ∧ w'.disk = w.disk := by
+  simp only [stageFinish, hnew, Bool.false_eq_true, if_false] at h
+  split at h
+  · cases h
+  · cases h; exact ⟨rfl, rfl⟩
+
+/-- **a crash anywhere inside recovery**: every prefix of the recovery's FS steps (orphan cleanup, drain flush) leaves
+    an image with the same content — or the doubled image of the drain flush's own window. -/
+theorem recover_pre {s : Name} {d : Disk} {md : Option ShardMeta} {X es : List Update} (h : Img s d md X es) :
+    ∃ w, openEngine d = some w ∧ AllPre d (w.trace.map (·.2)) (PreOk s (X ++ es) (X ++ es)) := by
+  have good : ∀ {d' md' X' es'}, Img s d' md' X' es' → X' ++ es' = X ++ es → PreOk s (X ++ es) (X ++ es) d' :=
+    fun h e => .inl ⟨_, _, _, h, .inl e⟩
+  cases md with
+  | none =>
+    obtain ⟨hnm, hX, hes⟩ := h.noMeta rfl
+    subst hX; subst hes
+    have hmp : metaPaths d = [] := by
+      apply List.eq_nil_iff_forall_not_mem.2
+      intro f hf
+      have := (mem_metaPaths d f).1 hf
+      simp [hnm f] at this
+    obtain ⟨tr, t1, t2, t3⟩ := afterCleanup_pre (s := s) (loadWorld d [] 1) (paths d) (by simpa [loadWorld] using h)
+      (by intro q hq; cases q <;> simp_all [orphan, observed, loadWorld])
+    obtain ⟨a1, a2, _⟩ := afterCleanup_spec (loadWorld d [] 1) d rfl
+    have himg1 : Img s (afterCleanup (loadWorld d [] 1) (paths d)).disk none [] [] := by
+      rw [t2]; exact AllPre.full' t3
+    have hload : stageLoad d = some (afterCleanup (loadWorld d [] 1) (paths d)) := by
+      simp [stageLoad, hmp, loadShards]
+    generalize afterCleanup (loadWorld d [] 1) (paths d) = w1 at a1 a2 himg1 hload t1 t2
+    have hf1 : w1.failed = false := by rw [a2]; rfl
+    have hsh1 : w1.mem.shards = [] := by rw [a1]; rfl
+    have hrep := stageReplay_nil w1 [] (by simpa using readAll_of_img himg1) hf1
+    obtain ⟨w', hfin, _, _⟩ := finish_empty hf1 hsh1 himg1
+    obtain ⟨ht, _⟩ := stageFinish_trace w1 w' (isSome_walNew himg1) hfin
+    refine ⟨w', by simp only [openEngine, hload, hrep, hfin], ?_⟩
+    rw [ht, t1]
+    simp only [loadWorld, List.map_append, List.map_cons, List.map_nil, List.cons_append, List.nil_append]
+    refine allPre_cons (good h rfl) (allPre_cons (good (h.nop 0) rfl) ?_)
+    exact (t3.mono (fun d' hd' => good hd' rfl))
+  | some m =>
+    obtain ⟨hname, hmeta, hothers, hX⟩ := h.hasMeta m rfl
+    have hdoc : readDoc d (.smeta (metaFile s)) = some (.smeta m) := by rw [readDoc_eq, hmeta]
+    have hne : metaPaths d ≠ [] := by
+      have : metaFile s ∈ metaPaths d := (mem_metaPaths d _).2 (by simp [hmeta])
+      exact List.ne_nil_of_mem this
+    have hall : ∀ f ∈ metaPaths d, f = metaFile s := by
+      intro f hf
+      have := (mem_metaPaths d f).1 hf
+      by_cases e : f = metaFile s
+      · exact e
+      · simp [hothers f e] at this
+    obtain ⟨nb, hls, hids⟩ := loadShards_const d (metaFile s) m hdoc (readBatches_isSome d _ X hX) _ hne hall
+    rw [hname] at hls
+    obtain ⟨tr, t1, t2, t3⟩ := afterCleanup_pre (s := s) (loadWorld d [(s, { md := m, buffer := [] })] nb) (paths d)
+      (by simpa [loadWorld] using h)
+      (by
+        intro q hq
+        cases q with
+        | batch id =>
+          intro hobs
+          obtain ⟨m', hm', b, hb, hid⟩ := hobs
+          cases hm'
+          have : referenced [(s, ({ md := m, buffer := [] } : Shard))] id = true :=
+            (referenced_single s _ id).2 ⟨b, hb, hid⟩
+          simp [orphan, loadWorld, this] at hq
+        | _ => simp_all [orphan, observed, loadWorld])
+    obtain ⟨a1, a2, _⟩ := afterCleanup_spec (loadWorld d [(s, { md := m, buffer := [] })] nb) d rfl
+    have himg1 : Img s (afterCleanup (loadWorld d [(s, { md := m, buffer := [] })] nb) (paths d)).disk (some m) X es := by
+      rw [t2]; exact AllPre.full' t3
+    have hload : stageLoad d = some (afterCleanup (loadWorld d [(s, { md := m, buffer := [] })] nb) (paths d)) := by
+      simp [stageLoad, hls]
+    generalize afterCleanup (loadWorld d [(s, { md := m, buffer := [] })] nb) (paths d) = w1 at a1 a2 himg1 hload t1 t2
+    have hf1 : w1.failed = false := by rw [a2]; rfl
+    have hsh1 : w1.mem.shards = [(s, { md := m, buffer := [] })] := by rw [a1]; rfl
+    have hnb1 : w1.mem.nextBatch = nb := by rw [a1]; rfl
+    have hread := readAll_of_img himg1
+    have hprefix : AllPre d (w1.trace.map (·.2)) (PreOk s (X ++ es) (X ++ es)) := by
+      rw [t1]
+      simp only [loadWorld, List.map_append, List.map_cons, List.map_nil, List.cons_append, List.nil_append]
+      refine allPre_cons (good h rfl) (allPre_cons (good (h.nop 0) rfl) ?_)
+      exact (t3.mono (fun d' hd' => good hd' rfl))
+    have hd1 : w1.disk = applyAll d (w1.trace.map (·.2)) := by
+      rw [t2, t1]; simp [loadWorld, applyAll, apply]
+    by_cases hes : es = []
+    · subst hes
+      have hrep := stageReplay_nil w1 [] (by simpa using hread) hf1
+      obtain ⟨w', hfin, _, _⟩ := finish_single (sh := { md := m, buffer := [] }) hf1 hsh1 hname rfl himg1
+        (by simpa [hnb1] using hids)
+      obtain ⟨ht, _⟩ := stageFinish_trace w1 w' (isSome_walNew himg1) hfin
+      exact ⟨w', by simp only [openEngine, hload, hrep, hfin], by rw [ht]; exact hprefix⟩
+    · have hmapne : es.map (fun u => (s, u)) ≠ [] := by simpa using hes
+      have hrp : replay w1.mem.shards (es.map (fun u => (s, u))) = [(s, { md := m, buffer := es })] := by
+        rw [hsh1, replay_one]; simp
+      have hfresh : ∀ b ∈ m.batches, b.id ≠ nb := fun b hb => by have := hids b hb; omega
+      have hfl := flush_world (s := s) (w := { w1 with mem := { w1.mem with shards := [(s, { md := m, buffer := es })] } })
+        (sh := { md := m, buffer := es }) (X := X) rfl hname hes rfl himg1 (by simpa [hnb1] using hfresh)
+      have hff : (flush { w1 with mem := { w1.mem with shards := [(s, { md := m, buffer := es })] } } s).failed = false := by
+        rw [hfl]; exact hf1
+      have hrep := stageReplay_flush w1 s { md := m, buffer := es } _ hread hmapne hrp hes hff
+      obtain ⟨_, _, i7⟩ := flush_disks (s := s) (d := w1.disk) (sh := { md := m, buffer := es }) (X := X) nb hname rfl himg1 hfresh
+      have i7' := i7 7 (Nat.le_refl 7)
+      have hpre2 := flush_allPre (s := s) (d := w1.disk) (sh := { md := m, buffer := es }) nb (X ++ es) hname hes rfl himg1 hfresh
+      obtain ⟨w', hfin, _, _⟩ := finish_single (s := s)
+        (w := flush { w1 with mem := { w1.mem with shards := [(s, { md := m, buffer := es })] } } s)
+        (sh := { md := flushedMeta { md := m, buffer := es } nb, buffer := [] }) (X := X ++ es)
+        hff (by rw [hfl]; simp [hnb1]) (by simp [flushedMeta, addBatch, hname]) rfl
+        (by rw [hfl]; simpa [flushSteps, hnb1] using i7')
+        (by
+          rw [hfl]
+          intro b hb
+          simp only [flushedMeta, addBatch, List.mem_append, List.mem_singleton] at hb
+          rcases hb with hb | hb
+          · have := hids b hb; simp only [hnb1]; omega
+          · subst hb; simp [hnb1])
+      have hnew' : (get (flush { w1 with mem := { w1.mem with shards := [(s, { md := m, buffer := es })] } } s).disk .walNew).isSome = false := by
+        rw [hfl]; exact isSome_walNew (by simpa [flushSteps, hnb1] using i7')
+      obtain ⟨ht, _⟩ := stageFinish_trace _ w' hnew' hfin
+      refine ⟨w', by simp only [openEngine, hload, hrep, hfin], ?_⟩
+      rw [ht, hfl]
+      simp only [List.map_append, hnb1]
+      apply allPre_append hprefix
+      rw [← hd1]
+      exact hpre2
+
 end ILV.Persist
